@@ -163,6 +163,7 @@ func runC02T(tier string, r *Result) {
 		if !r.mine(i) || r.expired() {
 			continue
 		}
+		r.note(in)
 		msg, key, infra := c02tRun(in)
 		r.Executions++
 		r.Nodes++
